@@ -470,6 +470,10 @@ func (c *FCGIClient) Request(p map[string]string, req io.Reader) (resp *http.Res
 			resp.Status = statusParts[1]
 		}
 
+	} else if resp.Header.Get("Location") != "" {
+		// a CGI redirect response (RFC 3875 section 6.2.3):
+		// Location without Status means 302 Found
+		resp.StatusCode = http.StatusFound
 	} else {
 		resp.StatusCode = http.StatusOK
 	}
